@@ -160,7 +160,7 @@ pub fn run(ctx: &mut Ctx) {
     }
     // (2) random operand terms with planted opportunities
     let mut rng = ctx.rng(0xC10);
-    let n = ctx.share(60_000, 3_000_000);
+    let n = ctx.share(500_000, 10_000_000);
     for i in 0..n {
         if ctx.out_of_time() {
             ctx.report.inconclusive.push(format!("random workload cut at {} of {}", i, n));
